@@ -82,7 +82,8 @@ class PCfg:
         if self.combinatorial:
             o1, o2 = "out.{name1}-{name2}.1." + ext, "out.{name1}-{name2}.2." + ext
         elif b.demux:
-            o1, o2 = "out.{name}.1." + ext, "out.{name}.2." + ext
+            nm = "{name}.{name}" if b.demux_twice else "{name}"
+            o1, o2 = "out." + nm + ".1." + ext, "out." + nm + ".2." + ext
         else:
             o1, o2 = "out.1." + ext, "out.2." + ext
         argv = ["--no-index", "--json", os.path.join(d, "report.json")]
@@ -187,7 +188,7 @@ def run_impl(pcfg, pairs, d, rng=None):
         if stem in names:
             res["files"][names[stem]] = prs
         elif stem.startswith("out."):
-            res["files"]["name:" + stem[4:]] = prs
+            res["files"]["name:" + (S.demux_key(stem[4:], b.demux_twice) if b.demux and not pcfg.combinatorial else stem[4:])] = prs
     rp = os.path.join(d, "report.json")
     if os.path.exists(rp):
         res["report"] = json.load(open(rp))
